@@ -187,7 +187,15 @@ func (f *skyFixture) Start() error {
 		go func(c *exec.Cmd) { c.Wait(); close(exited) }(f.cmd)
 		for i := 0; i < 600; i++ {
 			if resp, err := f.Get("any.verif.test", "/health", "verif@harness.test"); err == nil && resp.Status != 0 {
-				return nil
+				// the answer must come from OUR process (the port may have been
+				// taken by another shard's server if ours failed to bind)
+				select {
+				case <-exited:
+					i = 600
+					continue
+				case <-time.After(30 * time.Millisecond):
+					return nil
+				}
 			}
 			select {
 			case <-exited:
